@@ -206,6 +206,27 @@ def _eval_excuse(expr: str, args: dict):
         c.quant_depth -= 1
 
 
+def _cross_check(assumptions, t, inst):
+    """thorough tier: an instance z3 discharged is sent to cvc5 as well; cvc5 answering `sat` is a
+    disagreement between the back ends (checker error), `unknown` is recorded and changes nothing"""
+    if os.environ.get("PYVC_TIER") != "thorough":
+        return
+    try:
+        s = z3.Solver()
+        for a_ in assumptions:
+            s.add(a_)
+        s.add(z3.Not(t))
+        smt2 = s.to_smt2()
+    except Exception:  # pylint: disable=broad-except
+        inst["cvc5_cross"] = "not-exported"
+        return
+    if "lambda" in smt2:
+        inst["cvc5_cross"] = "not-exported"
+        return
+    r = _cvc5_check(smt2, int(10000 * _load_scale()))
+    inst["cvc5_cross"] = {"unsat": "agree", "sat": "DISAGREE"}.get(r, "unknown")
+
+
 class Recorder:
     """Collects obligation instances of one (contract, case) exploration."""
 
@@ -238,6 +259,7 @@ class Recorder:
             s1.add(z3.Not(t))
             c.n_solver_calls += 1
             if s1.check() == z3.unsat:
+                _cross_check(rel, t, inst)
                 inst.update(status="discharged", backend="z3", time=round(time.time() - t0, 4), sliced=f"{n_rel}/{len(c.pc)}")
                 self.by_backend["z3"] += 1
                 self.solver_time += time.time() - t0
@@ -264,6 +286,7 @@ class Recorder:
                 if os.environ.get("PYVC_DUMP"):
                     print(f"[pyvc] {oid}: attempt {how}: {r1} ({len(assumptions)} assumptions of {len(c.pc)})", flush=True)
                 if r1 == z3.unsat:
+                    _cross_check(assumptions, claim_t, inst)
                     inst.update(status="discharged", backend="z3", time=round(time.time() - t0, 4), sliced=how)
                     self.by_backend["z3"] += 1
                     self.solver_time += time.time() - t0
@@ -361,6 +384,8 @@ class Recorder:
                     model = s.model()
                 s.pop()
         s.pop()
+        if status == "discharged" and backend == "z3":
+            _cross_check(list(c.pc), t, inst)
         inst.update(status=status, backend=backend, time=round(time.time() - t0, 4))
         if status == "discharged":
             self.by_backend[backend] += 1
